@@ -31,7 +31,7 @@ from harness.core import Case, ImplResult, frac
 PID = 'C06'
 LEAN_MODULES = ['ThermoVerif.Props.C06']
 RULE = ('a case = 1–4 real balanced reactions from a 17-reaction library over 12 chemicals with known Hf (random reactant, '
-        'X ∈ [0,1] incl. 0 and 1, mol/wt basis, untagged or phase-tagged with reference / random / invalid phases), optionally '
+        'X ∈ [0,1] incl. 0 and 1, mol/wt basis (wt by conversion or defined by weight at construction), P ∈ {0.5,1,2,10} bar, streams in either package, untagged or phase-tagged with reference / random / invalid phases), optionally '
         'combined as ParallelReaction / SeriesReaction / ReactionSystem; dH of every reaction and set item; in 15 % of the cases a '
         'revision history on fresh Chemical copies (chemical.Hf / .Hfus = … of participating chemicals, chemicals.refresh_constants(), '
         'before or between the stream operations; reference = the chemicals\' current values); then isothermal and '
@@ -45,8 +45,10 @@ ASSUMPTIONS = [
     'stoichiometry, reactant index and X are read back from the real reaction objects (parsing / rescaling is C05)',
     'adiabatic ops whose outlet temperature leaves [150, 3000] K are outside the quantifier and not judged',
     'states the property models reject (no gas model for glucose, negative solid Cp of H2, …) are skipped and counted (skip:*)',
-    'streams held in another property package are single-phase only: MaterialIndexer.reset_chemicals does not restore a '
-    'MultiStream of another package (a material defect reported to C05)',
+    'that rxn(stream) leaves T, P and phase(s) untouched, and the Hnet setter, are decided by the oracle (plus the target / '
+    'resid fields of the sethnet line), not by a theorem',
+    'the exact clause "ΔHnet = Σ dH·feed" is judged only at 298.15 K with every reacting chemical in its reference phase; for '
+    'chemicals tagged outside their reference phase the deviation (H models vs Hvap(298.15)/Hfus) is measured and tagged only',
     'Hvap(298.15 K), Hfus, Hf, MW, phase_ref are numbers for every chemical used (none is None)',
     'float results are compared with the exact-rational model at rtol 1e-9 of the magnitude of the summed terms',
     'the −1e-12 InfeasibleRegion test: either outcome is accepted only on lines the driver marks fragile=1, i.e. when the '
@@ -135,7 +137,7 @@ def setup():
 
 
 def budget(tier):
-    return {'quick': dict(seconds=70, cases=4000, shrink_s=20, search_s=5),
+    return {'quick': dict(seconds=80, cases=3600, shrink_s=20, search_s=5),
             'thorough': dict(seconds=520, cases=50000, shrink_s=40, search_s=10)}[tier]
 
 
@@ -289,10 +291,8 @@ def run_impl(case: Case) -> ImplResult:
                  f'{what}.dH = {v!r} but X·Σν(Hf+latent){"/MW" if rec["basis"] == "wt" else ""} = {ref!r} '
                  f'(X={rec["X"]}, reactant={rec["reactant"]}, phases={rec["phases"]})')
 
-    revised_models = set()
     def check_current(s, H, Hnet, where, scale):
         """Hnet = H(T, P, current flows) + Hf: the values read from the stream against a freshly built stream"""
-        if id(s) in revised_models: tags.add('skip:current-check-after-Hfus-revision'); return None
         try: Hfr, Hffr = fresh_energy(s)
         except PROP_ERRORS: return None
         if not (math.isfinite(Hfr) and math.isfinite(Hffr)): return None
@@ -311,11 +311,18 @@ def run_impl(case: Case) -> ImplResult:
             eq = line.split(' :: ', 1)[1]
             kw = {}
             if len(t) > 5 and t[5].startswith('ph=') and t[5] != 'ph=-': kw['phases'] = t[5][3:]
-            r = tmo.Reaction(eq, reactant=reactant, X=X, chemicals=ta.chemicals, **kw)
-            if basis == 'wt':
-                try: d_mol = float(np.ravel(r.dH)[0])
+            if basis == 'wtc':
+                # defined by weight at construction; the molar twin for the basis-agreement check is its copy on 'mol'
+                r = tmo.Reaction(eq, reactant=reactant, X=X, chemicals=ta.chemicals, basis='wt', **kw)
+                try: d_mol = float(np.ravel(r.copy('mol').dH)[0])
                 except RuntimeError: d_mol = None
-                r.basis = 'wt'
+                basis = 'wt'; tags.add('rxn:wt-constructed')
+            else:
+                r = tmo.Reaction(eq, reactant=reactant, X=X, chemicals=ta.chemicals, **kw)
+                if basis == 'wt':
+                    try: d_mol = float(np.ravel(r.dH)[0])
+                    except RuntimeError: d_mol = None
+                    r.basis = 'wt'
             rec = read_back(r)
             x = dict(kind='single', obj=r, rec=rec, dH=None)
             x['singles'] = [x]
@@ -396,11 +403,11 @@ def run_impl(case: Case) -> ImplResult:
             assert revising and attr in ('Hf', 'Hfus')
             setattr(getattr(ta.chemicals, ID), attr, val)
             tags.add('rev:' + attr)
-            if attr == 'Hfus':
+            if attr == 'Hfus' and streams:
                 # a revised heat of fusion changes the chemical's H(T) functions; a stream that memoised H before keeps the old
-                # value (the memo is keyed on the stream's state, not on chemical data): outside this property — such
-                # streams are not compared with freshly built ones
-                revised_models.update(id(v) for v in streams.values())
+                # value (the memo is keyed on the stream's state, not on chemical data), so enthalpy differences across the
+                # revision mix two property packages: outside this property — such streams are retired
+                streams.clear(); tags.add('rev:Hfus-retires-streams')
         elif op == 'refresh':
             # the documented way to propagate revised constants to the compiled arrays
             for th_ in thermos: th_.chemicals.refresh_constants()
@@ -427,6 +434,44 @@ def run_impl(case: Case) -> ImplResult:
                 s = tmo.MultiStream(None, T=T, P=P, phases=tuple(ph), thermo=th)
                 for ID, p_, a in flows: s.imol[p_, ID] = float(a)
             streams[sid] = s
+        elif op == 'sethnet':
+            if t[1] not in streams: tags.add('skip:stream-dead'); continue
+            s = streams[t[1]]
+            phases = tuple(s.phases) if isinstance(s, tmo.MultiStream) else ()
+            peek(s, t, tags)
+            try:
+                H0, Hf0, Hnet0, C0 = float(s.H), float(s.Hf), float(s.Hnet), float(s.C)
+            except PROP_ERRORS:
+                tags.add('skip:no-H-model'); continue
+            if not all(map(math.isfinite, (H0, Hf0, Hnet0, C0))) or C0 == 0: tags.add('skip:no-H-model'); continue
+            n0 = flat_n(s, phases)
+            V = Hnet0 + float(t[2]) * C0
+            P0, ph0 = float(s.P), (tuple(s.phases) if phases else s.phase)
+            del _SETREC[:]
+            try:
+                s.Hnet = V
+            except PROP_ERRORS:
+                if not _SETREC: raise
+                tags.add('skip:sethnet-solver-raised'); del streams[t[1]]; continue
+            target = _SETREC[-1] if _SETREC else None
+            T1 = float(s.T)
+            try:
+                Hgot, Hf1, Hnet1, C1 = float(s.H), float(s.Hf), float(s.Hnet), float(s.C)
+            except PROP_ERRORS:
+                tags.add('skip:no-H-model'); del streams[t[1]]; continue
+            if not (math.isfinite(T1) and T_RANGE[0] <= T1 <= T_RANGE[1] and all(map(math.isfinite, (Hgot, Hnet1, C1)))):
+                tags.add('sethnet:outlet-T-out-of-range'); del streams[t[1]]; continue
+            scale = sum(abs(CHEM[IDS[k % len(IDS)]]['Hf'] * v) for k, v in enumerate(n0)) + abs(V) + abs(Hgot)
+            eps = 1e-5 * max(abs(C0), abs(C1)) + 1e-9 * scale
+            emit('sethnet %s V=%s n=%s Hgot=%s eps=%s' % (''.join(phases) or '-', fr(V), frs(n0), fr(Hgot), fr(eps)),
+                 'target=%s Hnet1=%s resid=%s hyp=ok' % (fr(target) if target is not None else 'none', fr(Hnet1), fr(Hnet1 - V)))
+            tags.add('sethnet:multi' if phases else 'sethnet:single')
+            if flat_n(s, phases) != n0 or float(s.P) != P0:
+                fail('Hnet-setter-changed-flows-or-P', f'`stream.Hnet = {V!r}` changed the flows or the pressure of the stream')
+            if not abs(Hnet1 - V) <= eps:
+                fail('Hnet-setter', f'after `stream.Hnet = {V!r}` (T {T1} K) stream.Hnet reads {Hnet1!r}: off by {Hnet1 - V!r} '
+                                    f'(tolerance {eps:.3g})')
+            check_current(s, Hgot, Hnet1, 'after-sethnet', abs(Hgot) + abs(Hf1))
         elif op == 'peek':
             if t[1] in streams: peek(streams[t[1]], ['peek=' + t[2]], tags)
         elif op in ('iso', 'adia'):
@@ -454,6 +499,7 @@ def run_impl(case: Case) -> ImplResult:
             n0 = flat_n(s, phases)
             Hnet0_true = check_current(s, H0, Hnet0, 'before-' + op, abs(H0) + abs(Hf0))
             T0 = float(s.T)
+            P0, ph0 = float(s.P), (tuple(s.phases) if phases else s.phase)
             try:
                 heat, form, lat = real_heat(x, s)
             except tmo.exceptions.InfeasibleRegion:
@@ -471,6 +517,11 @@ def run_impl(case: Case) -> ImplResult:
                 except tmo.exceptions.InfeasibleRegion:
                     emit('iso %s n=%s H0=%s H1=%s' % (t[1], frs(n0), fr(H0), fr(H0)), 'err=infeasible')
                     tags.add('iso:infeasible'); del streams[t[2]]; continue
+                # "isothermally": the call must leave T, P and the phase(s) of the stream exactly as they were
+                T1, P1, ph1 = float(s.T), float(s.P), (tuple(s.phases) if phases else s.phase)
+                if T1 != T0 or P1 != P0 or ph1 != ph0:
+                    fail('not-isothermal',
+                         f'rxn(stream) changed the thermal state of the stream: T {T0} → {T1}, P {P0} → {P1}, phase {ph0} → {ph1}')
                 peek(s, t, tags)        # another memoised property read between the reaction and the enthalpy reads
                 try:
                     H1, Hf1, Hnet1 = float(s.H), float(s.Hf), float(s.Hnet)
@@ -541,6 +592,8 @@ def run_impl(case: Case) -> ImplResult:
                     fail('hypothesis:H-setter-residual',
                          f'the H setter was handed {target!r} but stream.H reads {Hgot!r} afterwards (T_out={T1}, ε={eps:.3g}): '
                          f'the post-condition assumed by adiabatic_balance is not met')
+                if float(s.P) != P0:
+                    fail('adiabatic-changed-P', f'adiabatic_reaction changed the pressure of the stream: {P0} → {float(s.P)}')
                 Hnet1_true = check_current(s, Hgot, Hnet1, 'after-adia', abs(Hgot) + abs(Hf1))
                 if Hnet0_true is not None and Hnet1_true is not None and not abs(Hnet1_true - (Hnet0_true + Q)) <= eps + 1e-9 * scale:
                     fail('adiabatic-balance-current-state:' + kindtag,
@@ -632,15 +685,18 @@ def num(x):
     return repr(float(x)) if float(x) != int(x) else str(int(x))
 
 
-def equation(d, tagging, rng):
-    """stoichiometric string for the real parser; tagging: None | 'ref' | 'gl' | 'gls' | 'bad'"""
+def equation(d, tagging, rng, by_weight=False):
+    """stoichiometric string for the real parser; tagging: None | 'ref' | 'gl' | 'gls' | 'bad';
+    by_weight: coefficients in mass units (ν·MW), for `Reaction(..., basis='wt')`"""
     k = rng.choice(COEF_SCALE)
+    glucose_gas = rng.random() < 0.25       # (solid reference → gas) entry of the latent table; no H model there: dH only
     def term(ID, c):
         c = abs(c) * k
+        if by_weight: c = round(c * BASE_MW[ID], 5)
         s = ('' if c == 1 else num(c) + ' ') + ID
         if tagging == 'ref': s += ',' + CHEM_REF[ID]
         elif tagging in ('gl', 'gls'):
-            choices = tagging if ID != 'Glucose' else tagging.replace('g', '')
+            choices = tagging if (ID != 'Glucose' or glucose_gas) else tagging.replace('g', '')
             s += ',' + (CHEM_REF[ID] if rng.random() < 0.5 and CHEM_REF[ID] in choices else rng.choice(choices))
         elif tagging == 'bad': s += ',' + rng.choice('Llg')
         return s
@@ -651,6 +707,8 @@ def equation(d, tagging, rng):
 
 BASE_HF = {'Water': -285825.0, 'Ethanol': -277030.0, 'Methanol': -238400.0, 'Glucose': -1271100.0, 'CO2': -393474.0, 'O2': 0.0,
            'H2': 0.0, 'CH4': -74534.0, 'AceticAcid': -483580.0, 'N2': 0.0, 'CO': -110525.0, 'EthylAcetate': -479300.0}
+BASE_MW = {'Water': 18.01528, 'Ethanol': 46.06844, 'Methanol': 32.04186, 'Glucose': 180.15588, 'CO2': 44.0095, 'O2': 31.9988,
+           'H2': 2.01588, 'CH4': 16.04246, 'AceticAcid': 60.05196, 'N2': 28.0134, 'CO': 28.0101, 'EthylAcetate': 88.10512}
 CHEM_REF = {'Water': 'l', 'Ethanol': 'l', 'Methanol': 'l', 'Glucose': 's', 'CO2': 'g', 'O2': 'g', 'H2': 'g', 'CH4': 'g',
             'AceticAcid': 'l', 'N2': 'g', 'CO': 'g', 'EthylAcetate': 'l'}
 
@@ -662,11 +720,12 @@ def phases_of(eq):
 def gen_case(rng):
     ops = []
     basis = 'wt' if rng.random() < 0.4 else 'mol'
+    if basis == 'wt' and rng.random() < 0.4: basis = 'wtc'      # defined by weight at construction: Reaction(eq, basis='wt')
     r = rng.random()
     tagging = None if r < 0.5 else 'ref' if r < 0.7 else 'gl' if r < 0.83 else 'gls' if r < 0.95 else 'bad'
     nrx = rng.choice([1, 1, 2, 2, 3, 4])
     lib = [rng.choice(LIB) for _ in range(nrx)]
-    eqs = [equation(d, tagging, rng) for d in lib]
+    eqs = [equation(d, tagging, rng, by_weight=(basis == 'wtc')) for d in lib]
     # explicit `phases=` makes every reaction of the case expose the same phase rows (needed for sets / systems)
     ph = None
     if tagging and tagging != 'bad':
@@ -751,20 +810,25 @@ def gen_case(rng):
             for k_ in list(amt):
                 if k_ not in rk: amt[k_] *= 0.3          # deficient feed: InfeasibleRegion expected
         flows = ['%s:%s:%s' % (ID, p_, num(a)) for (ID, p_), a in amt.items()]
-        # the other property package only for single-phase streams: MaterialIndexer.reset_chemicals does not restore a
-        # MultiStream of another package (a material defect, C05's subject), which would mask everything here
-        ops.append('S s%d %d %s 101325 %s %s' % (sidx, 1 if (not tagging and rng.random() < 0.3) else 0, num(T), sph, ','.join(flows)))
+        P = rng.choice([101325, 101325, 50000, 202650, 1000000])
+        ops.append('S s%d %d %s %s %s %s' % (sidx, 1 if rng.random() < 0.3 else 0, num(T), num(P), sph, ','.join(flows)))
         # read histories: (H, Hnet, C are read before every reaction) → reaction at unchanged T, P → another memoised
         # property (`peek=`) → H / Hnet again, or adiabatic_reaction started from that state
         def pk(p): return (' peek=' + rng.choice(PEEKS)) if rng.random() < p else ''
+        if rng.random() < 0.25:
+            # the Hnet setter (`stream.Hnet = value`), before and/or after the reactions
+            ops.append('sethnet s%d %s%s' % (sidx, num(rng.choice([0, 5, -10, 40, 120])), pk(0.3)))
         if rng.random() < 0.5:
             ops.append('iso %s s%d%s' % (top, sidx, pk(0.6)))
             if rng.random() < 0.2: ops.append('peek s%d %s' % (sidx, rng.choice(PEEKS)))
             if rng.random() < 0.45: ops.append('adia %s s%d %s %s%s' % (top, sidx, num(rng.choice([0, 0, 10, -20, 50])), sph, pk(0.3)))
         else:
             dT = rng.choice([0, 0, 0, 5, -10, 30, 100]) if rng.random() < 0.7 else round(rng.uniform(-40, 120), 2)
+            if rng.random() < 0.06 and not tagging:
+                dT = rng.choice([-250, -180]) if sph == 'g' else rng.choice([300, 600])     # towards the setter's phase-flip fallback
             ops.append('adia %s s%d %s %s%s' % (top, sidx, num(dT), sph, pk(0.3)))
             if rng.random() < 0.3: ops.append('iso %s s%d%s' % (top, sidx, pk(0.6)))
+        if rng.random() < 0.15: ops.append('sethnet s%d %s%s' % (sidx, num(rng.choice([0, 15, -25, 60])), pk(0.5)))
         if revise_late and sidx == 0:
             ops.extend(revision())
             if rng.random() < 0.5: ops.append('iso %s s0%s' % (top, pk(0.5)))      # the stream created before the revision
@@ -779,6 +843,9 @@ def generate(rng, tier, index, nworkers):
 
 def corpus():
     return [
+        # the Hnet setter before and after a weight-defined reaction at 10 bar, stream held in the other package
+        Case(['R r0 wtc 0.5 CO ph=- :: 56.0202 CO + 31.9988 O2 -> 88.019 CO2', 'dh r0',
+              'S s0 1 350 1000000 g CO:g:10,O2:g:20,N2:g:50', 'sethnet s0 40', 'iso r0 s0 peek=C', 'sethnet s0 -25 peek=S', 'adia r0 s0 10 g']),
         # read H/Hnet → isothermal reaction at unchanged T, P → read another memoised property → Hnet / adiabatic_reaction
         Case(['R r0 mol 0.7 H2 ph=- :: 2 H2 + O2 -> 2 Water', 'S s0 0 400 101325 g H2:g:10,O2:g:20,Water:g:100,N2:g:50',
               'iso r0 s0 peek=C', 'adia r0 s0 0 g',
